@@ -143,6 +143,8 @@ BaseObjs ==
   \cup {ObjE(<<OLoc("l", N(5)), Fd("a", v, N(1)), Fd("b", w, x)>>) : v \in Vis, w \in {"d", "h"}, x \in FieldVals}
   \cup {ObjE(<<Fd("a", "d", N(1)), OAs(Bin(">", Dot(Self, "a"), N(k)), m)>>) : k \in {0, 1}, m \in {None, S(<<109>>)}}
   \cup {ObjE(<<FdC(ne, "d", N(1)), Fd("b", "d", N(2))>>) : ne \in {S(<<97>>), S(<<98>>), Nul, N(1), Bin("+", S(<<97>>), S(<<97>>))}}
+  \cup {ObjE(<<OLoc("l", x), FdC(ne, "d", V("l")), Fd("b", v, V("l")), Fd("c", "d", Bin("+", V("l"), V("l")))>>) :
+          x \in {N(5), ArrE(<<N(1)>>)}, ne \in {S(<<97>>), Bin("+", S(<<97>>), S(<<>>))}, v \in {"d", "h"}}
   \cup {ObjE(<<Fd("a", "d", ObjE(<<Fd("b", "d", <<"dollar">>)>>)), Fd("c", "h", N(1))>>)}
   \cup {ObjE(<<Fd("a", "d", N(1)), Fd("b", "d", ObjE(<<Fd("c", "d", Dot(<<"dollar">>, "a")), Fd("a", "d", N(2)), Fd("d", "d", Dot(Self, "a"))>>))>>)}
 ExtObjs ==
